@@ -27,7 +27,7 @@ PROPS = {
         "modules": ["Cose.Props.C08"],
         "families": ["cbor", "map", "msg:wrongtype", "msg:gomap"],
         "spec_ops": ["cbor.enc", "wire.wrongtype", "wire.badbucket", "wire.badpayload", "cbor.encdup"],
-        "n_quick": 8000, "n_thorough": 800000,
+        "n_quick": 8000, "n_thorough": 200000,
         "rule": "cbor.enc: random Go values (all integer kinds, nil/empty slices, nested CoseMaps of 0..320 int/text labels) encoded by the "
                 "library vs the Lean deterministic encoder; cbor.dec / map.unmarshal: random CBOR trees written by an independent "
                 "mini-encoder with non-shortest heads, indefinite lengths, duplicate keys, bad UTF-8, tags, exotic keys, then "
